@@ -38,6 +38,8 @@ def norm(fn, e):
     e = re.sub(r"…_\d+", "…", e)
     e = re.sub(r"…var", "…", e)
     e = re.sub(r"\b_\d+\b", "_", e)
+    # `s[0..e]` is `s[..e]`
+    e = e.replace("std::ops::Range::Range{start: 0, end: ", "std::ops::RangeTo::RangeTo{end: ")
     return e
 
 
